@@ -39,3 +39,25 @@ contract(
                  "(covered by the bounded writer -> reader check on real files)"],
     from_property="the JSON store's embedded index addresses every stored value correctly for any Unicode content",
 )
+
+
+# ---- reading: an element index never reaches the trailing whole-sequence entry of the offset / size tables --------------------
+NODE = Obj("LJNode", offsets=Seq(Int), sizes=Seq(Int))
+READ_EXT = {
+    "self._load_or_node": Ext(ret=JV, pure=True, uf="loaded", note="reads `size` characters at `offset` of the data section and parses them"),
+    "LJNode._load_or_node": Ext(ret=JV, pure=True, uf="loaded"), "loaded": Ext(ret=JV, pure=True, uf="loaded"),
+}
+contract(
+    L + "LJNode.__len__", "C12", params=dict(self=NODE), returns=Int,
+    ensures={"the-last-table-entry-is-not-an-element": "result == len(self.sizes) - 1"},
+    from_property="the embedded index addresses every stored value correctly",
+)
+NK = "(key + len(self.sizes) - 1 if key < 0 else key)"
+contract(
+    L + "LJNode._getitem_sequence", "C12", params=dict(self=NODE, key=Int), externals=READ_EXT, returns=JV,
+    config={"isinstance": {"int": ["int"], "slice": []}},
+    requires={"a-sequence-node": "len(self.offsets) == len(self.sizes) and len(self.sizes) >= 1"},
+    raises={"IndexError": "not (0 <= %s and %s < len(self.sizes) - 1)" % (NK, NK)}, raises_iff=["IndexError"],
+    ensures={"reads-the-entry-of-that-element-counting-from-the-end-for-negative-keys": "result == loaded(self.offsets[%s], self.sizes[%s])" % (NK, NK)},
+    from_property="the JSON store's embedded index addresses every stored value correctly (sequence nodes: element k, never the whole-sequence entry)",
+)
